@@ -54,6 +54,8 @@ pub struct GenCfg {
     /// that is already in use or that the backend generates itself). Such a program is no longer
     /// accepted by construction: checks that use this judge only what pyxis accepts.
     pub clashes: u64,
+    /// Some(k): every perturbation is of kind k (see clash_perturb) instead of a drawn one
+    pub clash_kind: Option<u64>,
     /// clash perturbations may also rename things (off: only duplicated / re-declared functions and
     /// members, for checks whose expectations come from the reference model)
     pub clash_renames: bool,
@@ -114,6 +116,7 @@ impl GenCfg {
             static_vfuncs: false,
             shared_names: true,
             clashes: 0,
+            clash_kind: None,
             clash_renames: true,
             clash_field_renames: false,
             vft_base_anywhere: false,
@@ -1352,7 +1355,10 @@ impl<'t, 'd> Gen<'t, 'd> {
     // ------------------------------------------------------------ name clashes
 
     fn clash_perturb(&mut self) {
-        let kind = self.t.below(if self.cfg.clash_renames { 9 } else if self.cfg.clash_field_renames { 6 } else { 4 });
+        let kind = match self.cfg.clash_kind {
+            Some(k) => k,
+            None => self.t.below(if self.cfg.clash_renames { 9 } else if self.cfg.clash_field_renames { 6 } else { 4 }),
+        };
         *self.repairs.entry(format!("clash-kind-{kind}")).or_default() += 1;
         match kind {
             0 => self.clash_dup_impl_fn(),
